@@ -214,11 +214,22 @@ def audit_many(mods):
 
 
 def leanchecker(mod):
-    if ',' in mod:
-        oks = [leanchecker(m) for m in mod.split(',')]
-        return all(o[0] for o in oks), ' '.join(o[1] for o in oks)[-2000:], sum(o[2] for o in oks)
-    rc, out, err, dt = sh(['lake', 'env', 'leanchecker', mod], cwd=LEAN, timeout=1800)
-    return rc == 0, (out + err)[-2000:], dt
+    """replay every module of the Rivia import closure of the property module(s) with the independent checker
+    (`leanchecker M` re-checks the declarations of M against its imports; the closure covers the lemma files)"""
+    mods = set()
+    for m in mod.split(','):
+        mods |= {c for c in import_closure(m) if c.startswith('Rivia')}
+    mods = sorted(mods)
+    from concurrent.futures import ThreadPoolExecutor
+    t0 = time.time()
+
+    def one(m):
+        rc, out, err, dt = sh(['lake', 'env', 'leanchecker', m], cwd=LEAN, timeout=1800)
+        return m, rc, (out + err)[-400:]
+    with ThreadPoolExecutor(max_workers=NCPU) as ex:
+        res = list(ex.map(one, mods))
+    bad = [(m, o) for m, rc, o in res if rc != 0]
+    return not bad, (f'{len(mods)} modules replayed' if not bad else ' '.join(f'{m}: {o}' for m, o in bad))[-2000:], time.time() - t0
 
 
 # ---------------------------------------------------------------------------------------------
@@ -385,7 +396,7 @@ def generic_check(spec, tier, seed, replay=None):
     chk = None
     if tier == 'thorough' and okl and spec.get('leanchecker', True):
         okc, logc, dtc = leanchecker(spec['lean_mod'])
-        chk = dict(ok=okc, seconds=round(dtc, 1))
+        chk = dict(ok=okc, seconds=round(dtc, 1), scope=logc[:80])
         if not okc:
             proof_broken.append('leanchecker rejected ' + spec['lean_mod'] + ': ' + logc[-500:])
 
@@ -837,7 +848,7 @@ def memfs_check(spec, tier, seed, replay=None):
     chk = None
     if tier == 'thorough' and okl:
         okc, logc, dtc = leanchecker(spec['lean_mod'])
-        chk = dict(ok=okc, seconds=round(dtc, 1))
+        chk = dict(ok=okc, seconds=round(dtc, 1), scope=logc[:80])
         if not okc:
             proof_broken.append('leanchecker rejected ' + spec['lean_mod'] + ': ' + logc[-500:])
 
